@@ -4,7 +4,9 @@ import DEngine.Model.Fs
     * `bincode::serialize/deserialize::<HardState>` as used by both meta stores
       (d-engine-core/src/raft_role/mod.rs `impl Serialize/Deserialize for HardState`; bincode 1.x default options:
       fixed-width little-endian integers, 1-byte Option tag (0/1), 1-byte bool (0/1), trailing bytes allowed);
-    * `FileMetaStore::save_to_file` = `File::create` + `write_all` + `flush` on `hard_state.bin` (no fsync, no rename),
+    * `FileMetaStore::save_to_file` = `File::create` + `write_all` + `flush` + `sync_all` on `hard_state.bin.tmp`, then
+      `fs::rename` over `hard_state.bin`, then fsync of the directory (as fixed in /repo ae820a7; before that fix it
+      truncated `hard_state.bin` in place — F20),
       `FileMetaStore::load_from_file` + `load_hard_state` (file absent ⇒ none; undecodable ⇒ eprintln + none)
       (d-engine-server/src/storage/adaptors/file/file_storage_engine.rs);
     * `RocksDBMetaStore::save_hard_state` = one `put_cf(META_CF, "hard_state")` without sync, `load_hard_state` =
@@ -62,18 +64,51 @@ def dec (b : Bytes) : Option HS :=
 /-- `FileMetaStore::new` (→ `load_from_file`) followed by `load_hard_state`, on a crash image of `hard_state.bin`. -/
 def load (img : Option Bytes) : Option HS := img.bind dec
 
-/-- The file operations of `FileMetaStore::save_to_file`, in order. -/
-def saveOps (h : HS) : List FOp := [.create, .write (enc h), .flush]
+/-! ### `FileMetaStore::save_to_file` (after the F20 fix): temp file + `sync_all` + `rename` + directory fsync
 
-def save (f : File) (h : HS) : File := f.run (saveOps h)
+Two paths: `hard_state.bin` (`main`, the only one `load_from_file` reads) and `hard_state.bin.tmp` (`tmp`). -/
 
-def runSaves (f : File) (hs : List HS) : File := hs.foldl save f
+structure MetaDir where
+  main : File
+  tmp : File
+  /-- the content now visible at `main` was fully synced before it got there -/
+  mainSynced : Bool
+deriving Repr, DecidableEq
 
-/-- Crash point strictly after `File::create` returned and before `write_all` completed. -/
-def inWindow : Pt → Bool
-  | .at 1 => true
-  | .torn 1 _ => true
-  | _ => false
+def MetaDir.fresh : MetaDir := { main := File.absent, tmp := File.absent, mainSynced := true }
+
+inductive MOp where
+  | tmp (op : FOp)      -- an operation on the temp file
+  | rename              -- `fs::rename(tmp, main)`
+  | dirSync             -- `File::open(data_dir)?.sync_all()`
+deriving Repr, DecidableEq
+
+def MetaDir.step (d : MetaDir) : MOp → MetaDir
+  | .tmp op => { d with tmp := d.tmp.step op }
+  | .rename => { main := d.main.renamedOver d.tmp, tmp := d.tmp.push none, mainSynced := d.tmp.isSynced }
+  | .dirSync => if d.mainSynced then { d with main := File.synced d.main.vol } else d
+
+/-- The operations of `save_to_file`, in order. -/
+def saveOps (h : HS) : List MOp :=
+  [.tmp .create, .tmp (.write (enc h)), .tmp .flush, .tmp .syncAll, .rename, .dirSync]
+
+def MetaDir.run (d : MetaDir) (ops : List MOp) : MetaDir := ops.foldl MetaDir.step d
+
+def save (d : MetaDir) (h : HS) : MetaDir := d.run (saveOps h)
+
+def runSaves (d : MetaDir) (hs : List HS) : MetaDir := hs.foldl save d
+
+def tornDirs (k : Nat) (d : MetaDir) (bs : Bytes) : List (Pt × MetaDir) :=
+  (List.range bs.length).map fun j => (Pt.torn k j, d.step (.tmp (.write (bs.take j))))
+
+/-- All crash points of running `ops` from `d` (op boundaries + torn temp-file writes), numbering ops from `k`. -/
+def dirCrashPtsFrom : Nat → MetaDir → List MOp → List (Pt × MetaDir)
+  | k, d, [] => [(Pt.at k, d)]
+  | k, d, op :: rest =>
+    (Pt.at k, d) ::
+      ((match op with | .tmp (.write bs) => tornDirs k d bs | _ => []) ++ dirCrashPtsFrom (k + 1) (d.step op) rest)
+
+def dirCrashPts (d : MetaDir) (ops : List MOp) : List (Pt × MetaDir) := dirCrashPtsFrom 0 d ops
 
 /-! ### RocksDB meta store: the WAL as a list of records, the first `durable` of which are synced -/
 
